@@ -45,6 +45,9 @@ type CLIOpts struct {
 	// default of 4 GiB. A blow-up then ends in a Go "fatal error: out of memory"
 	// in the child instead of endangering the machine.
 	MemLimitKB int64
+	// Fifos are created as named pipes in the private directory; a writer delivers the bytes
+	// once the binary opens the pipe, then closes it
+	Fifos map[string][]byte
 }
 
 // CLI runs the binary in a private directory with a scrubbed environment.
@@ -69,6 +72,39 @@ func CLI(o CLIOpts) (*CLIResult, error) {
 			return nil, err
 		}
 	}
+	var fifoDone []chan struct{}
+	for name, data := range o.Fifos {
+		p := filepath.Join(dir, name)
+		os.MkdirAll(filepath.Dir(p), 0o755)
+		if err := syscall.Mkfifo(p, 0o600); err != nil {
+			return nil, err
+		}
+		done := make(chan struct{})
+		fifoDone = append(fifoDone, done)
+		go func(p string, data []byte) {
+			defer close(done)
+			w, err := os.OpenFile(p, os.O_WRONLY, 0) // blocks until the pipe is opened for reading
+			if err != nil {
+				return
+			}
+			w.Write(data)
+			w.Close()
+		}(p, data)
+	}
+	defer func() {
+		// a pipe the binary never opened: let its writer go
+		for name := range o.Fifos {
+			if r, err := os.OpenFile(filepath.Join(dir, name), os.O_RDONLY|syscall.O_NONBLOCK, 0); err == nil {
+				defer r.Close()
+			}
+		}
+		for _, d := range fifoDone {
+			select {
+			case <-d:
+			case <-time.After(2 * time.Second):
+			}
+		}
+	}()
 	if o.Timeout == 0 {
 		o.Timeout = 20 * time.Second
 	}
